@@ -139,6 +139,22 @@ pub fn note(site: &'static str, key: Option<&[u8]>, nums: [u64; 4]) {
     }
 }
 
+/// A plain notification carrying a sequence number drawn earlier (with
+/// [`next_seq`]) - for changes that become visible to other threads before
+/// the notification can be sent.
+pub fn note_at(seq: u64, site: &'static str, key: Option<&[u8]>, nums: [u64; 4]) {
+    if let Some(hook) = current_hook() {
+        hook(&Event {
+            pre: false,
+            site,
+            key,
+            nums,
+            seq,
+            would_block: &never,
+        });
+    }
+}
+
 fn guard_add(write: bool, delta: i64) {
     if write {
         WRITE_GUARDS.fetch_add(delta, Ordering::SeqCst);
